@@ -176,14 +176,16 @@ def replay_idman(**cex):
 # ---------------------------------------------------------------- (2) object level, E1
 
 IDS = [-5, -1, 0, 1, 2, 7]
-OPS = ["ent", "brush", "brush_ent", "copy_ent", "copy_brush", "remove_ent", "remove_brush", "drop_refs", "copy_other_map", "visgroup", "group"]
+OPS = ["ent", "brush", "brush_ent", "copy_ent", "copy_brush", "remove_ent", "remove_brush", "drop_refs", "copy_other_map", "visgroup", "group", "node", "set_nodeid"]
 
 
 def _live_ids(v):
     """ids per kind of every object reachable from the VMF."""
-    out = {"ent": [], "solid": [], "side": [], "vis": [], "group": []}
+    out = {"ent": [], "solid": [], "side": [], "vis": [], "group": [], "node": []}
     for e in [v.spawn] + list(v.entities):
         out["ent"].append(e.id)
+        if "nodeid" in e:
+            out["node"].append(int(e["nodeid"]))
     solids = list(v.brushes)
     for e in v.entities:
         solids += list(e.solids)
@@ -255,6 +257,14 @@ def _apply(v, other, held, op, idx):
             c = ents[idx % len(ents)].copy(vmf_file=v)
             v.add_ent(c)
             held.append(c)
+    elif op == "node":
+        e = vmf.Entity(v, keys={"classname": "info_node", "nodeid": str(want)})
+        v.add_ent(e)
+        held.append(e)
+    elif op == "set_nodeid":
+        nodes = [e for e in v.entities if "nodeid" in e]
+        if nodes:
+            nodes[idx % len(nodes)]["nodeid"] = str(want)
     elif op == "visgroup":
         g = v.create_visgroup("g")
         held.append(g)
@@ -264,7 +274,7 @@ def _apply(v, other, held, op, idx):
         held.append(g)
 
 
-USES_ID = {"ent", "brush_ent", "copy_ent", "copy_brush", "group"}
+USES_ID = {"ent", "brush_ent", "copy_ent", "copy_brush", "group", "node", "set_nodeid"}
 
 
 def pick(lst, idx):
@@ -280,7 +290,7 @@ def _recycle_probe(v, held):
     finalisers of removed-but-held objects run, then allocate twice more. Any id released while its owner is alive
     shows up here as a duplicate among live objects."""
     for rnd in range(3):
-        for op in ("ent", "brush", "visgroup", "group"):
+        for op in ("ent", "brush", "visgroup", "group", "node"):
             _apply(v, None, held, op, 1)      # desired id -1: automatic allocation
             _check_unique(v, f"recycle probe round {rnd} ({op})")
         if rnd == 0:
